@@ -359,3 +359,62 @@ func SortedFuncs(m map[*ssa.Function]bool) []*ssa.Function {
 	})
 	return out
 }
+
+// WithHelpers returns fd followed by the declarations of the functions of the same package that fd calls
+// statically, transitively up to depth levels (each once). Rules that look for an idiom "in function F"
+// use it so that moving the idiom into an unexported helper of F does not hide it.
+func (p *Prog) WithHelpers(pk *packages.Package, fd *ast.FuncDecl, depth int) []*ast.FuncDecl {
+	if fd == nil || pk == nil {
+		return nil
+	}
+	decls := map[*types.Func]*ast.FuncDecl{}
+	for _, f := range pk.Syntax {
+		for _, d := range f.Decls {
+			if x, ok := d.(*ast.FuncDecl); ok && x.Body != nil {
+				if fn, ok := pk.TypesInfo.Defs[x.Name].(*types.Func); ok {
+					decls[fn] = x
+				}
+			}
+		}
+	}
+	out := []*ast.FuncDecl{fd}
+	seen := map[*ast.FuncDecl]bool{fd: true}
+	frontier := []*ast.FuncDecl{fd}
+	for level := 0; level < depth; level++ {
+		var next []*ast.FuncDecl
+		for _, cur := range frontier {
+			ast.Inspect(cur.Body, func(n ast.Node) bool {
+				call, ok := n.(*ast.CallExpr)
+				if !ok {
+					return true
+				}
+				var id *ast.Ident
+				switch f := call.Fun.(type) {
+				case *ast.Ident:
+					id = f
+				case *ast.SelectorExpr:
+					id = f.Sel
+				case *ast.IndexExpr:
+					if x, ok := f.X.(*ast.Ident); ok {
+						id = x
+					}
+				}
+				if id == nil {
+					return true
+				}
+				fn, _ := pk.TypesInfo.Uses[id].(*types.Func)
+				if fn != nil && fn.Origin() != nil {
+					fn = fn.Origin()
+				}
+				if d := decls[fn]; d != nil && !seen[d] {
+					seen[d] = true
+					out = append(out, d)
+					next = append(next, d)
+				}
+				return true
+			})
+		}
+		frontier = next
+	}
+	return out
+}
